@@ -63,6 +63,12 @@ RULE = ("Hypothesis draws d in {2,3,50,300,1000(,3000)} or 2..40, cycled mode-si
         "4 sqrt(R) 2^L above everything) and family generic (the truncate tensors of this module with total scale 2^L in a profile whose "
         "partial products are representable, orthogonalised by teneva.orthogonalize(Y, d-1), e = c ||Y||, c in 1e-6..0.3); r omitted / "
         "1e12 / 3 / 2 / 1; against the same call without use_stab and against the input. "
+        "Sub-check long_scale: truncate(Y, e, use_stab=True) for VERY LONG chains with a HUGE total exponent and a tight e: d in 1000..4096 "
+        "(drawn, or 1000 / 2048 / 3000 / 4095 / 4096), scale profile uniform / alternating / two halves / left end / right end with a total of "
+        "+-3000..29500 (| log2 ||Y|| | <= 29900 after the contribution of the bulk, else every core is shifted back exactly), all ranks 1 or "
+        "rank patterns 1..2 with at least one mode of size >= 2 (identity + noise with noise 2^-3..2^-6), e in 1e-8 / 1e-10 / 1e-11 / 1e-12; "
+        "all assertions of sub-check truncate, of which the SCALE oracle (norm and <Z, Y> of the result against those of the input as ratios "
+        "of reference Gram values; part of every truncate assertion of this module) is the one that resolves 1e-10 there. "
         "Non-trivial = the plain (use_stab=False) computation is not finite-and-normal while the reference value is non-zero; "
         "distinct by SHA-1 of the case.")
 TOLERANCES = ("scalar product: |v 2^p / ref - 1| <= 8 eps sum_k (r1 s1 + n + 2) rho_k, rho_k = ||T_k^abs |v_k|||_2 ||W_k+1||_2 / |<Y1,Y2>| "
@@ -99,6 +105,16 @@ TOLERANCES = ("scalar product: |v 2^p / ref - 1| <= 8 eps sum_k (r1 s1 + n + 2) 
               "maximum), zero core -> (zeros, p0), thr = 2 max -> (G, p0) unchanged, thr = max / 2 -> the default split; shift: "
               "Q bit-identical and p moved by s unless the maximum is within 1e-11 of a power of two (then the same denoted core); the plain "
               "truncate is not compared when a core has a subnormal maximum (its R factor has as few bits); "
+              "truncate, scale (every sub-check that rounds with use_stab): | ||Z|| / ||Y|| - 1 | <= e' + B + (tol<Z,Z> + tol<Y,Y>) / 2 and "
+              "| <Z,Y> / <Y,Y> - 1 | <= e' + B + tol<Z,Y> + tol<Y,Y> (triangle / Cauchy-Schwarz inequality applied to ||Z - Y|| <= e' ||Y||), "
+              "e' = e (1 + 1e-3) if no rank was reduced (nothing was cut, the eigh floor of the rank decision is not in play), else "
+              "sqrt(e'^2 + 16 (d-1) R eps) as for the distance; tol = the rounding bounds of the reference Gram values; B = 8 eps (sum_k c_k "
+              "rho_k + 0.35 |p| + 1.5 d) the first-order rounding bound of the routine itself: c_k = r n + n r' + 4 max(r, r') + 3 inner "
+              "dimensions of the QR / RQ, Gram, eigh and the three products that touch core k, rho_k >= 1 the conditioning factor of step k of "
+              "the reference recursion, and the redistribution of 2^p: fl(p/d) off by |p/d| eps/2 -> 2^(p/d) off by |p/d| ln2 eps/2, one "
+              "rounded power (<= 1 ulp) and one product per core, all d cores in the same direction: eps (0.35 |p| + 1.5 d), |p| <= "
+              "|log2 ||Y||| + 8.  Measured on the unmodified library for d = 1000..4096, | log2 ||Y|| | <= 29900: deviation <= 2e-12 "
+              "(|p| ln2 eps/2 dominates), B = 3e-11..3.5e-10, tol = 1e-11..9e-11; "
               "orth_false: same ranks as the plain call (e is an absolute threshold for both, placed a factor >= 3 away from every tail norm in "
               "family spectrum; in family generic c >= 1e-6 is far above the eigh floor 1e-8 of the rank decision and a tail norm of random "
               "data within rounding of c ||Y|| has probability ~1e-10), the two results bit-identical or distance^2 <= 2x rounding bound + "
@@ -135,7 +151,11 @@ ASSUMPTIONS = ["d >= 2",
                "sub-check orth_false: the caller's part of the contract is met by construction - the tensor is orthogonalised to the last "
                "core; the plain call is representable: |L| <= 450 plus the growth of at most 50 random cores keeps ||Y||^2 and e^2 normal "
                "numbers (checked on the data: ||Y|| within 2^+-500, else the case is skipped with a label)",
-               "shared core objects: all repeated cores of one chain have the same shape (r, n, r) and one power-of-two scale per object"]
+               "shared core objects: all repeated cores of one chain have the same shape (r, n, r) and one power-of-two scale per object",
+               "sub-check long_scale, generator choice: unfoldings of moderate condition (rank 1, or ranks <= 2 with a mode of size >= 2 and "
+               "noise >= 2^-6 in the identity family) so that no singular value lies between e and the eigh floor 1e-8 of the rank decision "
+               "and the bound e (1 + 1e-3) applies (decided on the data: ranks of the result = ranks of the input, labelled rank_kept); "
+               "per-core scales within [-480, 480] as in the bulk families, so 2^(p/d) is representable"]
 
 LO, HI = -480, 480            # per-core log2 scale window of the bulk families (generator choice, see ASSUMPTIONS)
 EXACT_LO = -900               # a contraction step of at least this log2 size scales exactly under a power-of-two factor (no subnormal terms)
@@ -268,6 +288,7 @@ class Gram:
         self.m, self.p, self.tol = 0.0, 0, 0.0
         self.lo_path, self.hi_path = 0, 0
         self.step_lo, self.step_hi = 0, 0
+        self.rho = None
         Ms, Mas, es, cs = [], [], [], []
         for A, B in zip(Y1, Y2):
             ma, mb = float(np.max(np.abs(A))), float(np.max(np.abs(B)))
@@ -316,6 +337,7 @@ class Gram:
         with np.errstate(over="ignore"):
             rho = maj * Wn * np.exp2(np.minimum(ex, 1100.0)) / abs(val)
         self.rho_max = float(np.max(rho))
+        self.rho = rho                                            # rho_k >= 1: amplification of a relative perturbation of step k in the value
         self.tol = float(KTOL * EPS * np.sum(np.array(cs, dtype=float) * rho))
         self.lo_path, self.hi_path = min(Ps), max(Ps)
         self.step_lo, self.step_hi = min(es), max(es)             # log2 size of the largest entry-wise product G1 * G2 of one step
@@ -836,10 +858,13 @@ def run_accuracy(ctx, Y1, Y2, s1, s2, shift):
 
 # ------------------------------------------------------------------------------------------- orthogonalize / truncate
 
-def rel_dist2(Z, pz, Y, gy=None):
-    """||Z 2^pz - Y||^2 / ||Y||^2 from three reference Gram values, with its first-order rounding bound."""
+def rel_dist2(Z, pz, Y, gy=None, keep=None):
+    """||Z 2^pz - Y||^2 / ||Y||^2 from three reference Gram values, with its first-order rounding bound (keep: a dict that receives
+    the Gram objects of <Z,Z> and <Z,Y>)."""
     gz, gzy = Gram(Z, Z), Gram(Z, Y)
     gy = gy or Gram(Y, Y)
+    if keep is not None:
+        keep.update(gz=gz, gzy=gzy)
     if gy.zero:
         return None
     a = 0.0 if gz.zero else pow2(gz.m / gy.m, gz.p + 2 * pz - gy.p)             # integer exponent arithmetic: no rounding of big logs
@@ -934,12 +959,65 @@ def prop_truncate(case, ctx):
     run_truncate(ctx, Y, e)
 
 
-def run_truncate(ctx, Y, e, info=None):
+def scale_rounding(Y, gy):
+    """First-order bound of the rounding error of truncate(Y, e, use_stab=True) in the SCALE of its result (relative error of ||Z||
+    and of <Z, Y>), derived for the routine as documented: (i) the sweeps - per core one QR / RQ of the (r n x r') unfolding and
+    one product with the triangular factor (orthogonalisation), one Gram product, one symmetric eigen-decomposition and two products
+    with the factors (rounding): each a relative perturbation of ONE core of at most (inner dimension) eps, c_k = r n + n r' +
+    4 max(r, r') + 3 in total; a relative perturbation delta of core k while the cores on one side are orthonormal changes
+    ||Y||^2 by at most 2 delta rho_k ||Y||^2, rho_k = ||left Gram|| ||right Gram|| / <Y, Y> >= 1 the conditioning factor of the
+    reference recursion (Gram.rho); (ii) the redistribution of the exponent p: x = fl(p/d) has the relative error u = eps/2, so
+    2^x is off by |p/d| ln2 u, the power itself is rounded (<= 1 ulp = 2 u) and every core is multiplied by it once (u): d cores
+    give |p| ln2 u + 3 d u <= eps (0.35 |p| + 1.5 d), |p| <= |log2 ||Y||| + 1 + log2 sqrt(r n) (last core of max modulus in [1, 2)).
+    The safety factor KTOL covers the constants of the LAPACK kernels.  Measured on the unmodified library, d = 1000..4096,
+    | log2 ||Y|| | up to 29900: <= 2e-12 (the term |p| ln2 u dominates), the bound is 3e-11 .. 3.5e-10 there."""
+    d = len(Y)
+    n, r = oracle.shape_of(Y), oracle.ranks_of(Y)
+    c = np.array([r[k] * n[k] + n[k] * r[k + 1] + 4 * max(r[k], r[k + 1]) + 3 for k in range(d)], dtype=float)
+    P = abs(gy.log2()) / 2 + 8
+    with np.errstate(over="ignore", invalid="ignore"):
+        return float(KTOL * EPS * (np.sum(c * gy.rho) + 0.35 * P + 1.5 * d))
+
+
+def check_scale(g, ctx, Y, gy, gz, gzy, e, cut, R):
+    """The SCALE of the rounded tensor: ||Z - Y|| <= e' ||Y|| implies | ||Z|| / ||Y|| - 1 | <= e' and | <Z, Y> / <Y, Y> - 1 | <= e'
+    (triangle / Cauchy-Schwarz inequality).  e' = e (1 + 1e-3) when no rank was reduced (nothing was cut: the result is the input
+    in another gauge, the eigh floor of the rank decision is not in play), else sqrt(e'^2 + 16 (d-1) R eps) as for the distance.
+    Both ratios come from reference Gram values with integer exponents; unlike the distance (a difference of three Gram values, floor
+    sqrt(rounding bound) ~ 1e-5 for long chains) they resolve a relative error of the scale down to the rounding bounds themselves."""
+    d = len(Y)
+    if gy.zero or gz.zero or gzy.zero or gz.m <= 0 or gy.m <= 0:
+        return                                                      # the distance check has already failed
+    ee = e * (1 + 1e-3)
+    if cut:
+        ee = math.sqrt(ee * ee + 16 * (d - 1) * R * EPS)
+    lib = scale_rounding(Y, gy)
+    ln_norm = 0.5 * math.log(2.0) * ((gz.p - gy.p) + math.log2(gz.m / gy.m))
+    b_norm = ee + lib + 0.5 * (gz.tol + gy.tol)
+    if math.isfinite(b_norm):
+        dev = math.expm1(max(-50.0, min(50.0, ln_norm)))
+        g.check(abs(dev) <= b_norm, "the norm of the result differs from the norm of the input by more than the requested accuracy "
+                "(ratio of two reference Gram values)", norm_ratio_minus_1=dev, bound=b_norm, e=e, rounding_of_the_routine=lib,
+                rounding_of_the_reference=0.5 * (gz.tol + gy.tol), log2_norm=gy.log2() / 2, d=d, rank_reduced=cut)
+    b_sp = ee + lib + gzy.tol + gy.tol
+    if math.isfinite(b_sp):
+        ok = (gzy.m > 0) == (gy.m > 0)
+        dev = math.expm1(max(-50.0, min(50.0, math.log(2.0) * ((gzy.p - gy.p) + math.log2(abs(gzy.m / gy.m)))))) if ok else -2.0
+        g.check(abs(dev) <= b_sp, "<Z, Y> differs from <Y, Y> by more than the requested accuracy (ratio of two reference Gram values)",
+                ratio_minus_1=dev, bound=b_sp, e=e, rounding_of_the_routine=lib, rounding_of_the_reference=gzy.tol + gy.tol,
+                log2_norm=gy.log2() / 2, d=d, rank_reduced=cut)
+    if not cut and math.isfinite(b_norm) and b_norm <= 1e-9:
+        ctx.label("scale_asserted<1e-9")
+    elif not cut and math.isfinite(b_norm) and b_norm <= 1e-6:
+        ctx.label("scale_asserted<1e-6")
+
+
+def run_truncate(ctx, Y, e, info=None, gy=None):
     """truncate(Y, e, use_stab=True): returns (Z, plain result or None); `info` (a dict) receives the reference Gram of Y and the bounds."""
     d = len(Y)
     n = oracle.shape_of(Y)
     what = f"truncate(e={e}, use_stab=True)"
-    gy = Gram(Y, Y)
+    gy = gy or Gram(Y, Y)
     g = Guard(ctx, what)
     snap = snapshot(Y)
     Z = g.lib(teneva.truncate, Y, e, use_stab=True)
@@ -950,7 +1028,8 @@ def run_truncate(ctx, Y, e, info=None):
     g.check(all(x <= y for x, y in zip(rout, rin)), "a rank increased", rin=rin[:12], rout=rout[:12])
     if gy.zero:
         return Z, None
-    rd = rel_dist2(Z, 0, Y, gy)
+    grams = {}
+    rd = rel_dist2(Z, 0, Y, gy, grams)
     r2, t2, a, b = rd
     R = max(rin)
     if info is not None:
@@ -958,6 +1037,8 @@ def run_truncate(ctx, Y, e, info=None):
     bound = (e * (1 + 1e-3)) ** 2 + 16 * (d - 1) * R * EPS + 2 * t2
     g.check(r2 <= bound, "result is farther from the input than e * ||Y|| (relative distance^2 from three reference Gram values)",
             dist2=r2, e2=e * e, bound=bound, rounding=t2, zz_over_yy=a, zy_over_yy=b, ranks_in=rin[:10], ranks_out=rout[:10])
+    if why is None:
+        check_scale(g, ctx, Y, gy, grams["gz"], grams["gzy"], e, rout != rin, R)
     if 2 * t2 + 16 * (d - 1) * R * EPS <= e * e:
         ctx.label("distance_bound_sharp")
     if rout != rin:
@@ -2065,6 +2146,59 @@ def prop_tiny(case, ctx):
     {"norm": prop_norm, "scalar": prop_scalar, "accuracy": prop_accuracy, "orth": prop_orth, "truncate": prop_truncate}[case["op"]](case, ctx)
 
 
+# ------------------------------------------------------------------------------------------- very long chains, huge total exponent, tight e
+# The factor 2^p gathered by the orthogonalisation (|p| up to 30000) is handed back to the d cores after the rounding.  A relative error
+# delta in the per-core share is raised to the power d: the SCALE of the result is off by d delta although its direction, its ranks and
+# its finiteness are right.  Such an error is visible only when d AND |p| are large and the measurement is finer than the distance from
+# three Gram values (floor 1e-5 for d = 3000): this sub-check draws d in 1000..4096, | log2 ||Y|| | up to 29900 and e = 1e-8 .. 1e-12 and
+# relies on check_scale (ratio of reference Gram values of the result and of the input).
+
+LONG_PATTERNS = ["uniform", "uniform", "uniform", "alt", "alt_neg", "halves", "left", "right"]
+LONG_LIMIT = 29900            # | log2 ||Y|| | of the generated tensor (quantifier of the property: 2^-30000 .. 2^+30000)
+
+
+@st.composite
+def long_cases(draw, tier):
+    d = draw(st.one_of(st.integers(1000, 4096), st.integers(2500, 4096), st.sampled_from([1000, 2048, 3000, 4095, 4096])))
+    spec = draw(tensor_specs(d))
+    spec["over"] = False
+    spec["rp"] = [min(2, x) for x in spec["rp"]]
+    kind = draw(st.sampled_from(["rank1", "generic", "generic"]))
+    if kind == "rank1":
+        spec["ends"] = "all1"
+    else:
+        # unfoldings of moderate condition: a chain of 1 x 1 modes is one matrix product (numerically of rank one after a few hundred
+        # factors) and identity + noise 2^-30 has a second singular value of 1e-9 - both sit below the eigh floor of the rank decision
+        if max(spec["nm"]) == 1:
+            spec["nm"] = [2] + spec["nm"][1:]
+        if spec["fam"] == "eye":
+            spec["noise"] = 3 + spec["noise"] % 4
+    mag = draw(st.one_of(st.integers(20000, 29500), st.integers(20000, 29500), st.integers(3000, 29500)))
+    return {"Y": spec, "kind": kind, "e": draw(st.sampled_from([1e-10, 1e-10, 1e-11, 1e-12, 1e-8])),
+            "sc": {"pat": draw(st.sampled_from(LONG_PATTERNS)), "total": mag * draw(st.sampled_from([-1, 1])), "amp": draw(st.integers(0, 480))}}
+
+
+def prop_long(case, ctx):
+    spec, e = case["Y"], case["e"]
+    d = spec["d"]
+    s = scales(d, case["sc"], LO, HI)
+    Y = build(spec, s)
+    gy = Gram(Y, Y)
+    ctx.check(not gy.zero, "harness: the tensor is not zero")
+    L = gy.log2() / 2
+    if abs(L) > LONG_LIMIT:
+        # the bulk adds up to +-1 per core to the drawn total: bring the norm back into the range of the property (exact scaling)
+        q = int(math.ceil((abs(L) - LONG_LIMIT) / d)) * (1 if L > 0 else -1)
+        Y = [np.ldexp(G, -q) for G in Y]
+        gy = Gram(Y, Y)
+        L = gy.log2() / 2
+        ctx.label("norm_brought_into_range")
+    ctx.label("kind:" + case["kind"], "fam:" + spec["fam"], "pat:" + case["sc"]["pat"], f"e={e}", "d<2000" if d < 2000 else "d<3000" if d < 3000 else "d>=3000",
+              "huge" if L > 0 else "tiny", "|log2 norm|>=20000" if abs(L) >= 20000 else "|log2 norm|<20000")
+    Z, _ = run_truncate(ctx, Y, e, gy=gy)
+    ctx.label("rank_kept" if oracle.ranks_of(Z) == oracle.ranks_of(Y) else "rank_cut")
+
+
 SUBCHECKS = [
     Sub("scalar", prop_scalar, strategy=scalar_cases, quick=60, thorough=600),
     Sub("norm", prop_norm, strategy=norm_cases, quick=60, thorough=600),
@@ -2079,4 +2213,5 @@ SUBCHECKS = [
     Sub("extreme_cores", prop_extreme, strategy=extreme_cases, quick=60, thorough=600),
     Sub("subnormal", prop_subnormal, strategy=subnormal_cases, quick=40, thorough=500),
     Sub("orth_false", prop_orth_false, strategy=orth_false_cases, quick=30, thorough=400),
+    Sub("long_scale", prop_long, strategy=long_cases, quick=3, thorough=24),
 ]
